@@ -258,9 +258,24 @@ def rule_b(ctx, ix):
                 defs = [d for d in ast.walk(h.node) if isinstance(d, ast.FunctionDef) and d.name == part.id and d is not h.node]
                 if defs:
                     body = defs[0]
-            for x in ast.walk(body):
-                if isinstance(x, ast.Attribute) and isinstance(x.ctx, ast.Load) and isinstance(x.value, ast.Name) and x.value.id == s_ \
-                        and x.attr in field_sets:
+
+            def reads_of(body, me, depth=0):
+                """fields of the group read by a handler / filter, followed through the group's own methods"""
+                out = []
+                for x in ast.walk(body):
+                    if isinstance(x, ast.Attribute) and isinstance(x.ctx, ast.Load) and isinstance(x.value, ast.Name) and x.value.id == me:
+                        mem = sg.resolve(x.attr)
+                        if mem is not None and mem.func is not None and depth < 3:
+                            out += reads_of(mem.func.node, mem.func.self_name, depth + 1)
+                        else:
+                            out.append(x.attr)
+                    elif isinstance(x, ast.Call) and isinstance(x.func, ast.Name) and x.func.id in ('getattr', 'hasattr') and len(x.args) >= 2 \
+                            and isinstance(x.args[0], ast.Name) and x.args[0].id == me and isinstance(x.args[1], ast.Constant):
+                        out.append(x.args[1].value)
+                return out
+            for attr in reads_of(body, s_):
+                if attr in field_sets:
+                    x = ast.Attribute(value=ast.Name(id=s_), attr=attr)
                     sets = field_sets[x.attr]
                     ok = any(m_ == 'register_to_hub' for m_, v_ in sets) or \
                         any(m_ == '__init__' and not (isinstance(v_, ast.Constant) and v_.value is None) for m_, v_ in sets)
